@@ -527,7 +527,17 @@ func ledgerRandom(seed int64, runs, blocks int, big64 bool, out *json.Encoder) e
 		}
 		alive := true
 		for b := 0; b < blocks && alive; b++ {
-			alive = s.block(randomBlock(rng, 4, 3), "")
+			spec := randomBlock(rng, 4, 3)
+			if protocolV2 && b < 6 { // scripted opening: quiet blocks, then two-height double-sign reports that reach the per-block cap
+				spec = BlockSpec{Proposer: 0}
+				if b == 3 {
+					spec.DblSign, spec.DblTwo = []int{1}, true
+				}
+				if b == 4 {
+					spec.DblSign, spec.DblTwo = []int{3, 2}, true
+				}
+			}
+			alive = s.block(spec, "")
 		}
 		if alive {
 			s.drain()
